@@ -246,5 +246,45 @@ int main(int argc, char** argv) {
         vf::section_dfs("deep", 2, true, [&](vf::Chooser& ch) { s.run(ch); });
         vf::require_outcomes("deep", 4);
     }
+    {
+        // the wrapper that installs the cache as the string allocator of the whole process: whatever is still in use when it is
+        // destroyed goes back to the underlying allocator as well ("cleared (or destroyed)"), and the previous allocator is restored
+        int depth = T ? 6 : 5;
+        vf::info("global.bound", vf::fmt("GlobalSimpleStringCache over a recording string allocator: every history of <= %d alloc(10|40|100|200|300) / release-of-a-live-buffer operations through the installed allocator, then destruction of the wrapper", depth));
+        vf::section_dfs("global", 2, false, [&](vf::Chooser& ch) {
+            vf::ctx("global-cache");
+            static const size_t GS[] = {10, 40, 100, 200, 300};
+            RecAllocator rec; std::string trace; int warnings0 = g_warnings = 0; (void)warnings0;
+            TestMemoryAllocator* before = SimpleString::getStringAllocator();
+            SimpleString::setStringAllocator(&rec);
+            {
+                GlobalSimpleStringCache* g = new GlobalSimpleStringCache;
+                TestMemoryAllocator* a = SimpleString::getStringAllocator();
+                if (a != g->getAllocator()) vf::fail("global/not-installed", "constructing the wrapper did not install its allocator as the string allocator");
+                std::vector<Handle> live;
+                for (int step = 0; step < depth; step++) {
+                    int n = 5 + (int)live.size() + 1;
+                    int op = ch.choose(n);
+                    char buf[64];
+                    if (op < 5) { char* p = a->alloc_memory(GS[op], "g.cpp", 1); memset(p, 0x5a, GS[op]); live.push_back({p, GS[op], -1}); snprintf(buf, sizeof buf, "alloc(%zu) ", GS[op]); trace += buf; }
+                    else if (op < 5 + (int)live.size()) { Handle h = live[op - 5]; live.erase(live.begin() + (op - 5)); a->free_memory(h.p, h.size, "g.cpp", 2); snprintf(buf, sizeof buf, "release(%zu) ", h.size); trace += buf; }
+                    else break;       // stop early: destroy now
+                }
+                trace += vf::fmt("destroy[%zu in use] ", live.size());
+                delete g;
+                if (SimpleString::getStringAllocator() != &rec) vf::fail("global/previous-allocator-not-restored", trace + ": after destruction the string allocator is not the one that was installed before");
+                if (rec.outstanding() != 0) vf::fail("global/not-everything-returned", trace + vf::fmt(": %d blocks of the underlying allocator still outstanding after the wrapper was destroyed", rec.outstanding()));
+                if (rec.double_returns) vf::fail("allocator/double-return", trace + ": a block was returned to the underlying allocator twice");
+                if (rec.foreign_returns) vf::fail("allocator/foreign-return", trace + ": memory that did not come from the underlying allocator was returned to it");
+                vf::outcome(vf::fmt("inuse=%zu blocks=%zu", live.size() > 3 ? 3 : live.size(), rec.blocks.size() > 4 ? 4 : rec.blocks.size()));
+                if (!live.empty()) vf::count("nontrivial");
+                vf::count("ops", (long)rec.blocks.size());
+            }
+            SimpleString::setStringAllocator(before);
+            rec.release_all();
+            if (vf::want_sample()) vf::sample(trace);
+        });
+        vf::require_outcomes("global", 4);
+    }
     return vf::finish();
 }
